@@ -37,6 +37,14 @@ INPUTS["carry"] = (
     "USE solution 2\nREACTION 1\n NaCl 1\n 1 mmol in 2 steps\nEND\n"
     "USE solution 2\nREACTION_TEMPERATURE 1\n 60\nEND\n"
     "USE solution 2\nEQUILIBRIUM_PHASES 2\n Calcite 0 0.01\nEND\n")
+# definitions and print switches that change between the simulations of one call
+INPUTS["redef"] = ("SOLUTION 1\n pH 7\n Na 1\n Cl 1\nSELECTED_OUTPUT 1\n -totals Na\nEND\n"
+                   "SELECTED_OUTPUT 1\n -totals Cl\nUSE solution 1\nREACTION 1\n NaCl 1\n 1 mmol\nEND\n")
+INPUTS["printsw"] = ("SOLUTION 1\n pH 7\n Na 1\n Cl 1\nSELECTED_OUTPUT 1\n -totals Na\nDUMP\n -solution 1\nEND\n"
+                     "PRINT\n -dump false\n -selected_output false\nSOLUTION 2\n pH 8\n K 1\n Cl 1\nDUMP\n -solution 2\nEND\n"
+                     "PRINT\n -dump true\n -selected_output true\nUSE solution 2\nREACTION 1\n NaCl 1\n 1 mmol\nEND\n")
+INPUTS["printdump"] = ("SOLUTION 1\n pH 7\n Na 1\n Cl 1\nDUMP\n -solution 1\nEND\n"
+                       "PRINT\n -dump false\nSOLUTION 2\n pH 8\n K 1\n Cl 1\nDUMP\n -solution 2\nEND\n")
 CUSTOM = {"Output": "o.txt", "Log": "l.txt", "Error": "e.txt", "Dump": "d.txt"}
 
 
@@ -160,7 +168,12 @@ def judge(tag, cfg, names, o, lines, sel_lines, tables, files, before, problems,
             pr = []
             if on:
                 if want_f and files.get(fname) != s:
-                    pr.append(("sel-file-ne-string", "selected output %d: file %r (%s bytes) != string (%d bytes)" % (
+                    f = files.get(fname)
+                    # mechanism: the file was truncated where a later simulation redefined the block - it holds exactly the tail of
+                    # the string that begins at a heading line (= a line the string does not start with)
+                    tail = f is not None and len(f) < len(s) and s.endswith(f) and s[:len(s) - len(f)].endswith("\n") and split_lines(f)[:1] != split_lines(s)[:1]
+                    pr.append(("sel-file-holds-only-the-last-definition (SELECTED_OUTPUT n defined again in a later simulation of the call: file truncated there, string keeps the earlier rows)"
+                               if tail else "sel-file-ne-string", "selected output %d: file %r (%s bytes) != string (%d bytes)" % (
                         u, fname, len(files[fname]) if fname in files else None, len(s))))
                 n, got = sel_lines[u]
                 exp = split_lines(s)
@@ -293,10 +306,16 @@ def cases(tier):
                 for cur in (1, 2):
                     for names in (0, 1):
                         out.append({"input": inp, "cfg": [1] * len(GLOBAL) + bits(p, 4), "names": names, "cur": cur})
-        for inp in ("plain", "log"):
+        for inp in ("plain", "log", "redef", "printsw", "printdump"):
             for names in (0, 1):
                 out.append({"input": inp, "cfg": [1] * NSW, "names": names, "cur": 1})
                 out.append({"input": inp, "cfg": [0] * NSW, "names": names, "cur": 1})
+        for inp in ("redef", "printsw", "printdump"):
+            for g in range(16):      # dump file/string x selected-output file/string of user 1
+                cfg = [1] * NSW
+                cfg[GLOBAL.index("DumpFile")], cfg[GLOBAL.index("DumpString")] = g & 1, (g >> 1) & 1
+                cfg[len(GLOBAL)], cfg[len(GLOBAL) + 1] = (g >> 2) & 1, (g >> 3) & 1
+                out.append({"input": inp, "cfg": cfg, "names": 1, "cur": 1})
         for corner in (0, 1):
             for f in range(NSW):
                 for i1, i2 in (("warn", "two"), ("dump", "dump"), ("carry", "carry")):
